@@ -3,6 +3,7 @@ package vsched
 import (
 	"cmp"
 	"sort"
+	"time"
 )
 
 // SortedKeys fixes the iteration order of a map range in instrumented code
@@ -30,4 +31,29 @@ var Descending bool
 func PErr[T interface{ Err() error }](x T) error {
 	Point("Err", nil)
 	return x.Err()
+}
+
+// RunNative runs the root bodies as ordinary goroutines (no controlled
+// execution is active, so every shim behaves like the real primitive) and
+// waits for them. It is the free-running pass used under `go test -race` to
+// check the assumption that synchronisation operations are the only
+// interaction points; it never decides a property.
+func RunNative(timeout time.Duration, roots ...func()) (finished bool) {
+	done := make(chan struct{}, len(roots))
+	for _, f := range roots {
+		f := f
+		go func() {
+			defer func() { _ = recover(); done <- struct{}{} }()
+			f()
+		}()
+	}
+	t := time.After(timeout)
+	for range roots {
+		select {
+		case <-done:
+		case <-t:
+			return false
+		}
+	}
+	return true
 }
